@@ -289,6 +289,9 @@ pub struct World {
     /// connections whose accept() call was made to fail
     pub accept_failed: usize,
     accept_fault_armed: bool,
+    /// connections whose accept() call was failed by the armed fault
+    pub accept_failed_ids: std::collections::BTreeSet<usize>,
+    pub accept_failed_peers: Vec<PeerId>,
     pub listen: Vec<Multiaddr>,
     pub log: Vec<String>,
     /// ids of own dial attempts whose established connection the manager rejected
@@ -359,6 +362,8 @@ impl World {
             accept_faults: h.accept_faults,
             accept_failed: 0,
             accept_fault_armed: false,
+            accept_failed_ids: Default::default(),
+            accept_failed_peers: Vec::new(),
             listen,
             log: Vec::new(),
             own_rejected: Default::default(),
@@ -571,6 +576,10 @@ impl World {
                 if std::mem::take(&mut self.accept_fault_armed) && !self.m.clear_fail_next_accept_call() {
                     // the fault was consumed: the accept call for this connection failed
                     self.accept_failed += 1;
+                    if let Some((id, peer, _)) = rec.injected_established {
+                        self.accept_failed_ids.insert(id);
+                        self.accept_failed_peers.push(peer);
+                    }
                 }
             }
             Op::Close { pick } => {
@@ -695,6 +704,10 @@ impl World {
             self.resolve(ob, outcome, &mut rec)?;
             if std::mem::take(&mut self.accept_fault_armed) && !self.m.clear_fail_next_accept_call() {
                 self.accept_failed += 1;
+                if let Some((id, peer, _)) = rec.injected_established {
+                    self.accept_failed_ids.insert(id);
+                    self.accept_failed_peers.push(peer);
+                }
             }
             each(self, &rec)?;
         }
